@@ -15,6 +15,12 @@ NOLOG_MACROS = (
 )
 
 
+def child_mod_cfg(file, modname, cfg):
+    return Edit(file, None, "append",
+                f"\n#[cfg({cfg})]\n#[path = \"{modname}.rs\"]\nmod {modname};\n",
+                why=f"search/replay module (cfg({cfg}) only)")
+
+
 def child_mod(file, modname):
     """Append `#[cfg(kani)] #[path] mod <modname>;` to `file` (harness becomes a child module, so
     private items of the module under contract are reachable)."""
@@ -38,6 +44,11 @@ UNITS = {
                  why="ghost probe: stored generation just after the record copy"),
         ],
     },
+    "shm_compute_search": {
+        "crate": "clock-bound-shm", "features": "writer",
+        "files": [("clock-bound-shm/src/verif_search_compute.rs", "harness/clock-bound-shm/verif_search_compute.rs")],
+        "edits": [child_mod_cfg("clock-bound-shm/src/lib.rs", "verif_search_compute", "verif_search")],
+    },
 }
 
 # ---------------------------------------------------------------------------------------------
@@ -50,12 +61,61 @@ A = {
     "weaver": "the weaver's cfg(kani)-guarded insertions do not change the behaviour of the code under contract "
               "(weave log in this file); tracing log macros are no-ops under cfg(kani)",
     "target": "target = x86_64-unknown-linux-gnu",
+    "float": "A1/A2 (assumed, verus/compute.rs.tmpl mod float_axioms): f64 `/` and `*` never fail; the expression "
+             "((d as f64 / 1e9) * (drift as f64)) as i64 is a function fterm(d, drift) with |fterm - floor(d*drift/10^9)| <= "
+             "1 + floor(d*drift/10^9)/2^50, fterm >= 0, fterm == 0 when d == 0 or drift == 0, and fterm monotone in d "
+             "(three round-to-nearest operations with relative error 2^-53 each, then truncation); cross-checked by Kani only on a bounded window",
+    "extract": "the extractor's listed rewrites (libc::timespec -> timespec, derive lines dropped, named return value, exec const) "
+               "preserve the meaning of the extracted text; function bodies are pasted verbatim",
 }
+
+FLOAT_DEP = ["C05.compute.exact", "C05.compute.never_less", "C05.compute.not_more", "C05.compute.zero_age",
+             "C05.compute.never_below_stored_bound", "C05.lemma.monotone", "C14.compute.blur_is_zero_age"]
+
+
+COMPUTE_SEARCH = {"kind": "search", "crate": "clock-bound-shm", "units": ["shm_compute_search"], "features": "writer",
+                  "test": "verif_search_compute"}
+
+
+def compute_groups(pattern):
+    return [
+        {"kind": "verus", "gen": "compute", "obligations": [pattern, r"NIX\..*"], "rlimit": 30, "float_dependent": FLOAT_DEP,
+         "float_shape_clause": "C05.compute.exact",
+         "float_dependent_if_shape_lost": ["C05.compute.ordered", "C14.compute.no_panic"],
+         "pair": COMPUTE_SEARCH},
+    ]
+
+
+COMPUTE_FUNCS = ["clock_bound_shm::ClockErrorBound::compute_bound_at (verbatim body, Verus)",
+                 "nix::sys::time::{TimeSpec::new, nanos_mod_sec, tv_sec, tv_nsec, nanoseconds, num_seconds, num_nanoseconds, as_ref, From::from, "
+                 "Add::add, Sub::sub, Ord::cmp, PartialOrd::partial_cmp, div_mod_floor_64, div_floor_64, mod_floor_64, div_rem_64} "
+                 "(verbatim bodies from the nix version pinned in Cargo.lock, Verus)"]
+COMPUTE_TRUSTED = ["tools/extract.py + tools/verus_gen.py (extraction, listed rewrites)",
+                   "verus/compute.rs.tmpl: hand-declared struct timespec/TimeSpec, libc type aliases (i64 on x86_64 linux), zero_init_timespec stand-in, "
+                   "field-wise PartialEq stand-in for the derive, float axioms A1/A2 (assumed)"]
 
 # ---------------------------------------------------------------------------------------------
 # properties
 # ---------------------------------------------------------------------------------------------
 PROPS = {
+    "C05": {
+        "functions": COMPUTE_FUNCS,
+        "assumptions": [A["tools"], A["float"], A["extract"], A["weaver"]],
+        "trusted": COMPUTE_TRUSTED,
+        "groups": compute_groups(r"C05\..*"),
+    },
+    "C06": {
+        "functions": COMPUTE_FUNCS,
+        "assumptions": [A["tools"], A["extract"], A["weaver"]],
+        "trusted": COMPUTE_TRUSTED,
+        "groups": compute_groups(r"C06\..*"),
+    },
+    "C14": {
+        "functions": COMPUTE_FUNCS,
+        "assumptions": [A["tools"], A["float"], A["extract"], A["weaver"]],
+        "trusted": COMPUTE_TRUSTED,
+        "groups": compute_groups(r"C14\..*"),
+    },
     "C11": {
         "functions": ["clock_bound_shm::writer::<ShmWriter as ShmWrite>::write"],
         "assumptions": [A["tools"], A["seq_atomics"], A["weaver"]],
